@@ -675,6 +675,8 @@ def within(x, iv, tol):
         return None
     lo, hi = iv
     t = Fraction(tol)
+    if not math.isfinite(x):
+        return False
     return lo - t <= Fraction(x) <= hi + t
 
 
